@@ -255,3 +255,33 @@ Theorem C20_bridge_stereo_inverse_ct_to_from : forall (isH : Z -> bool) n0 n1 n2
             (a = 0 -> b = 1 -> to_bond_stereo env s = (n0, n1, label)).
 Proof. exact bridge_ct_to_from. Qed.
 Print Assumptions C20_bridge_stereo_inverse_ct_to_from.
+
+(* ---- whole molecules (structure part): to_rdkit_molecule then from_rdkit_molecule ---- *)
+(* every well-formed molecule (pairwise different atom numbers, atoms in range with a hydrogen count, bonds between existing
+   atoms with an order a chython bond can have) is transferred without error, and what comes back is the same molecule with
+   the atoms renumbered 1..N in enumeration order ([expect_atoms]: same element, isotope, charge, radical flag; hydrogens
+   h + RDKit's implicit hydrogens; RDKit's coordinates; the old number as map number) and every bond between the renumbered
+   ends with its order, in the same order of bonds *)
+Theorem C20_bridge_molecule_inverse_from_to : forall (symbol : Z -> string),
+  (forall z e, from_symbol (symbol z) = Some e -> e_num e = z) ->
+  forall keep atoms bonds,
+    NoDup (map fst atoms) -> atoms_ok symbol atoms ->
+    (forall n m o, In (n, m, o) bonds -> In n (map fst atoms) /\ In m (map fst atoms) /\ In o [1; 2; 3; 4; 8]) ->
+    exists ras rbs, to_mol keep (atoms, bonds) = Ok (ras, rbs) /\
+      forall impls xy, exists bonds',
+        from_mol symbol impls xy (ras, rbs) = Ok (expect_atoms keep 0 atoms impls xy, bonds') /\
+        Forall2 (fun b b' => bond_image (map fst atoms) b (fun i j o => same_bond b' (Z.of_nat i + 1, Z.of_nat j + 1, o) = true)) bonds bonds'.
+Proof. exact from_to_mol. Qed.
+Print Assumptions C20_bridge_molecule_inverse_from_to.
+
+(* non-vacuity: 13C-labelled ethanol bound to Fe(2+) through an order-8 bond enumerated from the iron, atoms numbered 7 3 9 1 *)
+Theorem C20_bridge_molecule_example :
+  let atoms := [(7, mkC 6 None 0 false (Some 3) None 0 0); (3, mkC 6 (Some 13) 0 false (Some 2) None 0 0);
+                (9, mkC 8 None 0 false (Some 1) None 0 0); (1, mkC 26 None 2 false (Some 0) None 0 0)] in
+  let bonds := [(7, 3, 1); (3, 9, 1); (1, 9, 8)] in
+  NoDup (map fst atoms) /\ atoms_ok chython_symbol atoms /\
+  (forall n m o, In (n, m, o) bonds -> In n (map fst atoms) /\ In m (map fst atoms) /\ In o [1; 2; 3; 4; 8]) /\
+  to_mol true (atoms, bonds) = Ok ([mkR 6 0 0 0 3 7; mkR 6 13 0 0 2 3; mkR 8 0 0 0 1 9; mkR 26 0 2 0 0 1],
+                                   [(0, 1, "SINGLE"); (1, 2, "SINGLE"); (2, 3, "DATIVE")]).
+Proof. exact from_to_mol_example. Qed.
+Print Assumptions C20_bridge_molecule_example.
